@@ -110,6 +110,9 @@ var fnames = map[string]string{
 	"empty": "; filename=", "quoteonly": `; filename="`, "unterminated": `; filename="abc`,
 	"dup": `; filename="a.txt"; filename="b.txt"`, "encoded": `; filename="=?UTF-8?q?f=C3=BCr_dich.txt?="`,
 	"encodedkoi": `; filename="=?KOI8-R?B?8NLJ18XULnR4dA==?="`, // an encoded word in a charset the decoder may not know
+	"longcjk": `; filename="` + strings.Repeat("報告書", 30) + `.txt"`, "longumlaut": `; filename="` + strings.Repeat("äöü", 50) + `.pdf"`,
+	"long300": `; filename="` + strings.Repeat("abcdefghij", 30) + `.txt"`,
+	"long2231": "; filename*0*=UTF-8''" + strings.Repeat("%E5%A0%B1", 40) + ";\r\n filename*1*=" + strings.Repeat("%C3%BC", 70) + ".txt",
 	"sizeneg": `; filename="f.txt"; size=-5`, "sizehuge": `; filename="f.txt"; size=9223372036854775807`, "sizeok": `; filename="f.txt"; size=7`,
 }
 
@@ -207,6 +210,12 @@ func Text(in Input) []byte {
 		switch t.Boundary {
 		case "ok":
 			fmt.Fprintf(&b, "Content-Type: multipart/%s;\r\n boundary=B0\r\n", t.Ctype)
+		case "special": // a boundary out of the rarer boundary characters of RFC 2046 (unbalanced parentheses, +, ?, ...)
+			delim = "=_Part(1_+?/:.,'2345"
+			fmt.Fprintf(&b, "Content-Type: multipart/%s;\r\n boundary=\"%s\"\r\n", t.Ctype, delim)
+		case "long70":
+			delim = "++" + strings.Repeat("Boundary)", 7) + "(++++"
+			fmt.Fprintf(&b, "Content-Type: multipart/%s;\r\n boundary=\"%s\"\r\n", t.Ctype, delim)
 		case "absent":
 			fmt.Fprintf(&b, "Content-Type: multipart/%s\r\n", t.Ctype)
 		case "empty":
